@@ -6,7 +6,6 @@ import (
 	"context"
 	"encoding/json"
 	"fmt"
-	"os"
 	"regexp"
 	"runtime"
 	"sort"
@@ -85,6 +84,7 @@ type c11World struct {
 	repl   *strings.Replacer
 	cases  int
 	born   time.Time
+	suffix string // appended to every signature (names the wiring the run used)
 	query  interface {
 		QueryByPrefix(string, int) (map[string]string, error)
 	}
@@ -116,8 +116,8 @@ func c11NewWorld(t testing.TB, run *vk.Run, extra func(w *c11World)) *c11World {
 	}
 	// the handshake spawns `go pushConfigToClient`; let those finish while the clients
 	// still have no mappings (nothing is pushed then), so no late push lands in a case
-	if !c11WaitNoGoroutine("pushConfigToClient", 3*time.Second) {
-		run.Count("setup_push_wait_expired", 1)
+	if !c11WaitNoGoroutine([]string{"pushConfigToClient", "handleHandshake.gowrap"}, 10*time.Second) {
+		t.Fatalf("c11: setup: the post-handshake config push goroutines did not finish within 10 s") // harness/setup problem => inconclusive
 	}
 	w.cl["U0"] = n.MustConnect("")
 	w.cl["U1"] = n.MustConnect("")
@@ -229,6 +229,7 @@ func c11NewWorld(t testing.TB, run *vk.Run, extra func(w *c11World)) *c11World {
 	w.snap = w.dump()
 	w.ident = w.identities()
 	run.Count("worlds_built", 1)
+	run.Max("goroutines_max", int64(runtime.NumGoroutine()))
 	return w
 }
 
@@ -331,7 +332,8 @@ func c11CmdName(ct byte, pt packet.Type) string {
 	if !ok {
 		n = "other" // unregistered types share one class: keeps the signature set small
 	}
-	if pt.IsCommandResp() {
+	// handleCommandPacket treats JsonCommand and CommandResp alike except for these types
+	if pt.IsCommandResp() && (ct == byte(packet.HTTPProxyResponse) || ct == byte(packet.DNSResolve) || ct == byte(packet.DNSQuery)) {
 		n += "/resp"
 	}
 	return n
@@ -537,12 +539,22 @@ func (w *c11World) pump(out *c11Outcome, req string) {
 }
 
 // c11WaitNoGoroutine waits (bounded) until no goroutine has fn on its stack.
-func c11WaitNoGoroutine(fn string, max time.Duration) bool {
+func c11WaitNoGoroutine(fns []string, max time.Duration) bool {
 	buf := make([]byte, 1<<20)
 	deadline := time.Now().Add(max)
 	for {
 		n := runtime.Stack(buf, true)
-		if !strings.Contains(string(buf[:n]), fn) {
+		for n == len(buf) && len(buf) < 64<<20 {
+			buf = make([]byte, 2*len(buf))
+			n = runtime.Stack(buf, true)
+		}
+		found := false
+		for _, fn := range fns {
+			if strings.Contains(string(buf[:n]), fn) {
+				found = true
+			}
+		}
+		if !found {
 			return true
 		}
 		if time.Now().After(deadline) {
@@ -624,7 +636,9 @@ func c11Ignorable(key string) bool {
 	return false
 }
 
-var c11IgnorePrefixes = []string{}
+var c11IgnorePrefixes = []string{
+	"tunnox:http_domain:next_id", // HTTPDomainCreate draws an id before it validates the owner; names nobody
+}
 
 func c11Clip(s string) string {
 	if len(s) > 1500 {
@@ -783,7 +797,7 @@ func (w *c11World) sharesMapping(a, b string) bool {
 // judge applies oracles (1)-(4) to one executed case.
 func (w *c11World) judge(cs c11Case, cmd *packet.CommandPacket, out *c11Outcome) {
 	run := w.run
-	name := c11CmdName(cs.CT, cs.PT)
+	name := c11CmdName(cs.CT, cs.PT) + w.suffix
 	sent := cmd.CommandBody + "\x00" + cmd.Token + "\x00" + cmd.SenderId + "\x00" + cmd.ReceiverId
 	bearer := w.bearer(cs, sent)
 	detail := func(extra map[string]any) map[string]any {
@@ -1011,6 +1025,7 @@ type c11Driver struct {
 	seq     int
 	settle  map[byte]bool
 	reached map[byte]bool
+	suffix  string
 }
 
 func (d *c11Driver) world() *c11World {
@@ -1020,6 +1035,7 @@ func (d *c11Driver) world() *c11World {
 	}
 	if d.w == nil {
 		d.w = c11NewWorld(d.t, d.run, d.extra)
+		d.w.suffix = d.suffix
 	}
 	return d.w
 }
@@ -1033,6 +1049,14 @@ func (d *c11Driver) one(ct byte, pt packet.Type, req, kind, forge string, bodyOf
 	d.run.Case(fmt.Sprintf("%s|%s|%s|%s", c11CmdName(ct, pt), req, kind, forge), map[string]any{"ct": ct, "pt": byte(pt), "body": cmd.CommandBody, "sender": cmd.SenderId, "receiver": cmd.ReceiverId})
 	out := w.exec(cs, d.seq, d.settle[ct])
 	d.run.Eval(1)
+	if time.Since(w.born) > 45*time.Second {
+		// store entries carry TTLs (shortest: 90 s); a world this old (stalled machine) could
+		// show expirations as effects — drop the case instead of judging it
+		d.run.Count("cases_dropped_world_too_old", 1)
+		w.close()
+		d.w = nil
+		return "", &c11Outcome{Watchdog: true}
+	}
 	if out.Watchdog {
 		d.run.Count("watchdog", 1)
 		w.close()
@@ -1122,7 +1146,7 @@ func (d *c11Driver) sweep(types []byte, pts []packet.Type, forges []string, thor
 							if req == "U0" || req == "U1" {
 								cls = "unauth"
 							}
-							run.Violation(fmt.Sprintf("C11:forged-field-changes-outcome|cmd=%s|field=%s|requester=%s", c11CmdName(ct, pt), f, cls),
+							run.Violation(fmt.Sprintf("C11:forged-field-changes-outcome|cmd=%s|field=%s|requester=%s", c11CmdName(ct, pt)+d.suffix, f, cls),
 								map[string]any{"command_type": ct, "packet_type": byte(pt), "requester": req, "body_kind": kind,
 									"unforged": base, "forged": fp, "unforged_outcome": bout, "forged_outcome": fout})
 						}
@@ -1150,6 +1174,14 @@ func c11Registry(t testing.TB, w *c11World) *command.CommandRegistry {
 	return reg
 }
 
+func c11Ints(b []byte) []int {
+	out := make([]int, len(b))
+	for i, x := range b {
+		out[i] = int(x)
+	}
+	return out
+}
+
 func c11AllTypes() []byte {
 	out := make([]byte, 256)
 	for i := range out {
@@ -1161,7 +1193,7 @@ func c11AllTypes() []byte {
 func TestVerifC11Table(t *testing.T) {
 	run := vk.Start(t, "C11", "table")
 	defer run.Finish()
-	run.Rule("every CommandType byte 0..255 as JsonCommand (quick: CommandResp only for registered/special-cased types; thorough: CommandResp for all) x requester {U0 no handshake, U1 phase-1 for V1's id only, V1 listen party, V2 target party, S unrelated authenticated} x body {handler's well-formed body aimed at the victims' objects, same aimed at S's objects, DNS default-target, empty, truncated JSON (+4 malformed mutants thorough)} x forgery {none, victim ids in SenderId/ReceiverId, victim's secret in Token, identity fields added to the body (+swapped ids, id-as-token, all combined thorough)}; a case is distinct by that tuple; worlds (fresh mini server + objects with fresh markers) are rebuilt after every state-changing case")
+	run.Rule("every CommandType byte 0..255 as JsonCommand (quick: CommandResp only for registered/special-cased types; thorough: CommandResp for all) x requester {U0 no handshake, U1 phase-1 for V1's id only, V1 listen party, V2 target party, S unrelated authenticated} x body {handler's well-formed body aimed at the victims' objects, same aimed at S's objects, DNS default-target, empty, truncated JSON (+4 malformed mutants thorough)} x forgery {none, victim ids in SenderId/ReceiverId, victim's secret in Token, victim's id in Token, identity fields added to the body (+swapped ids, all combined thorough)}; a case is distinct by that tuple; worlds (fresh mini server + objects with fresh markers) are rebuilt after every state-changing case")
 	d := &c11Driver{t: t, run: run, settle: map[byte]bool{}, reached: map[byte]bool{}}
 	defer func() {
 		if d.w != nil {
@@ -1178,9 +1210,9 @@ func TestVerifC11Table(t *testing.T) {
 		}
 	}
 	sort.Slice(registered, func(i, j int) bool { return registered[i] < registered[j] })
-	run.Observe("registered_handler_types", registered)
+	run.Observe("registered_handler_types", c11Ints(registered))
 	special := []byte{byte(packet.HTTPProxyResponse), byte(packet.SOCKS5TunnelRequestCmd), byte(packet.DNSResolve), byte(packet.DNSQuery), byte(packet.TunnelTrafficReport), byte(packet.Disconnect)}
-	forges := []string{"ids", "token", "bodyids"}
+	forges := []string{"ids", "token", "token-id", "bodyids"}
 	if run.Thorough() {
 		forges = []string{"ids", "ids-swapped", "token", "token-id", "bodyids", "all"}
 	}
@@ -1205,7 +1237,7 @@ func TestVerifC11Table(t *testing.T) {
 	}
 	run.Count("registered_types", int64(len(registered)))
 	run.Count("registered_types_with_success", int64(cov))
-	run.Observe("registered_types_without_success", missing)
+	run.Observe("registered_types_without_success", c11Ints(missing))
 	run.Floor("registered_types_with_success", int64(len(registered)))
 	run.Floor("registered_types", 13)
 	run.Floor("party_traffic_report_applied", 1)
@@ -1221,5 +1253,184 @@ func TestVerifC11Table(t *testing.T) {
 	}
 }
 
-var _ = os.Getenv
-var _ = session.DefaultSessionConfig
+// TestVerifC11Unwired covers the handlers that live in internal/command (anchors of the
+// property) but that Server.setupConnectionCodeCommands does not register: C2C notify,
+// notify ack and the default handler set. The harness registers them on top of the
+// server's registry with the session's own NotificationService as router — the wiring
+// their constructors document. Signatures carry "|wiring=harness".
+func TestVerifC11Unwired(t *testing.T) {
+	run := vk.Start(t, "C11", "unwired")
+	defer run.Finish()
+	run.Rule("same table as TestVerifC11Table restricted to the command types of handlers the harness registers itself (SendNotifyToClient, NotifyClientAck, RegisterDefaultHandlers set), JsonCommand and CommandResp, all requesters/bodies/forgeries; distinct by (type, packet type, requester, body kind, forgery)")
+	var added []byte
+	extra := func(w *c11World) {
+		reg := c11Registry(t, w)
+		before := map[packet.CommandType]bool{}
+		for _, ct := range reg.ListHandlers() {
+			before[ct] = true
+		}
+		ns := session.NewNotificationService(w.n.ctx, w.n.SM.GetClientRegistry())
+		_ = reg.Register(command.NewNotifyClientAckHandler())
+		_ = reg.Register(command.NewSendNotifyToClientHandler(ns))
+		command.RegisterDefaultHandlers(reg)
+		added = added[:0]
+		for _, ct := range reg.ListHandlers() {
+			if !before[ct] {
+				added = append(added, byte(ct))
+			}
+		}
+		sort.Slice(added, func(i, j int) bool { return added[i] < added[j] })
+	}
+	d := &c11Driver{t: t, run: run, extra: extra, settle: map[byte]bool{}, reached: map[byte]bool{}, suffix: "|wiring=harness"}
+	defer func() {
+		if d.w != nil {
+			d.w.close()
+		}
+	}()
+	w := d.world()
+	reg := c11Registry(t, w)
+	types := append([]byte{}, added...)
+	for _, ct := range types {
+		if h, ok := reg.GetHandler(packet.CommandType(ct)); ok && h.GetDirection() != command.DirectionDuplex {
+			d.settle[ct] = true
+		}
+	}
+	run.Observe("harness_registered_types", c11Ints(types))
+	forges := []string{"ids", "token", "token-id", "bodyids"}
+	if run.Thorough() {
+		forges = []string{"ids", "ids-swapped", "token", "token-id", "bodyids", "all"}
+	}
+	d.sweep(types, []packet.Type{packet.JsonCommand, packet.CommandResp}, forges, run.Thorough())
+	run.Count("harness_registered_types", int64(len(types)))
+	run.Floor("harness_registered_types", 9)
+	run.Floor("deliveries_to_others", 1)
+	run.Floor("metamorphic_pairs", 300)
+	if run.Counter("watchdog") > 0 {
+		run.Floor("watchdog_free", 1)
+	}
+}
+
+// TestVerifC11AnswerSpoof: the response half of the DNS forwarders. V1 (a party) has a
+// DNS request pending at its target V2; before V2 answers, another connection sends a
+// CommandResp with the same CommandId. The answer that reaches V1 must be V2's.
+func TestVerifC11AnswerSpoof(t *testing.T) {
+	run := vk.Start(t, "C11", "answer-spoof")
+	defer run.Finish()
+	run.Rule("command {DNSResolve, DNSQuery} x answering connection {V2 (the target: control), U0, U1, S} x forged ids {none, target's id in SenderId} x seeded repetitions; the spoofer is given the CommandId (client-chosen, not a credential); distinct by (command, answerer, forgery)")
+	reps := run.Pick(2, 12)
+	var w *c11World
+	defer func() {
+		if w != nil {
+			w.close()
+		}
+	}()
+	seq := 0
+	for rep := 0; rep < reps; rep++ {
+		for _, ct := range []packet.CommandType{packet.DNSResolve, packet.DNSQuery} {
+			for _, who := range []string{"V2", "U0", "U1", "S"} {
+				for _, forge := range []string{"none", "ids"} {
+					if w == nil {
+						w = c11NewWorld(t, run, nil)
+					}
+					seq++
+					cid := fmt.Sprintf("c11-spoof-%d-%d", c11WorldSeq, seq)
+					var body string
+					if ct == packet.DNSResolve {
+						body = c11J(map[string]any{"domain": "probe.example", "qtype": 1, "target_client_id": w.id["V2"]})
+					} else {
+						body = c11J(map[string]any{"query_id": "q" + cid, "target_client_id": w.id["V2"], "dns_server": "8.8.8.8:53", "raw_query": "AAAA"})
+					}
+					run.Case(fmt.Sprintf("spoof|%d|%s|%s", ct, who, forge), cid)
+					done := make(chan error, 1)
+					go func() {
+						done <- w.cl["V1"].Send(&packet.TransferPacket{PacketType: packet.JsonCommand, CommandPacket: &packet.CommandPacket{CommandType: ct, CommandId: cid, CommandBody: body}})
+					}()
+					// wait (bounded) until the forward reached V2
+					arrived := false
+					for dl := time.Now().Add(3 * time.Second); time.Now().Before(dl); time.Sleep(100 * time.Microsecond) {
+						if w.cl["V2"].hc.Pending() > 0 {
+							if p := w.cl["V2"].RecvNow(); p != nil && p.CommandPacket != nil && p.CommandPacket.CommandId == cid {
+								arrived = true
+								break
+							}
+						}
+					}
+					if !arrived {
+						run.Count("watchdog", 1)
+						<-done
+						w.close()
+						w = nil
+						continue
+					}
+					answer := func(role, marker string, forged bool) {
+						var b string
+						if ct == packet.DNSResolve {
+							b = c11J(map[string]any{"success": true, "ips": []string{marker}, "ttl": 60})
+						} else {
+							b = c11J(map[string]any{"query_id": "q" + cid, "success": true, "raw_answer": []byte(marker)})
+						}
+						cmd := &packet.CommandPacket{CommandType: ct, CommandId: cid, CommandBody: b}
+						if forged {
+							cmd.SenderId = strconv.FormatInt(w.id["V2"], 10)
+							cmd.ReceiverId = strconv.FormatInt(w.id["V1"], 10)
+						}
+						_ = w.cl[role].Send(&packet.TransferPacket{PacketType: packet.CommandResp, CommandPacket: cmd})
+					}
+					const evil, genuine = "203.0.113.66", "192.0.2.7"
+					if who != "V2" {
+						answer(who, evil, forge == "ids")
+					}
+					answer("V2", genuine, false)
+					select {
+					case <-done:
+					case <-time.After(10 * time.Second):
+						run.Count("watchdog", 1)
+						w.close()
+						w = nil
+						continue
+					}
+					var got string
+					for i := 0; i < 8; i++ {
+						p := w.cl["V1"].RecvNow()
+						if p == nil {
+							break
+						}
+						if p.CommandPacket != nil && p.CommandPacket.CommandId == cid {
+							got = p.CommandPacket.CommandBody
+						}
+					}
+					evilSeen := strings.Contains(got, evil) || strings.Contains(got, "MjAzLjAuMTEzLjY2") // base64 of the marker inside raw_answer
+					genuineSeen := strings.Contains(got, genuine) || strings.Contains(got, "MTkyLjAuMi43")
+					run.Eval(1)
+					run.Distinct(fmt.Sprintf("%d/%s/%s", ct, who, forge))
+					switch {
+					case evilSeen:
+						cls := "stranger"
+						if who == "U0" || who == "U1" {
+							cls = "unauth"
+						}
+						run.Violation(fmt.Sprintf("C11:answer-from-non-target|cmd=%s|requester=%s", c11CmdName(byte(ct), packet.CommandResp), cls),
+							map[string]any{"world": w.describe(), "pending_request": map[string]any{"from": "V1", "forwarded_to": "V2", "CommandId": cid, "body": body},
+								"answer_sent_by": who, "forged_ids": forge == "ids", "delivered_to_V1": got, "note": "the answering connection was not the client the request was forwarded to; it only needed the CommandId"})
+					case genuineSeen:
+						if who == "V2" {
+							run.Count("target_answer_delivered", 1)
+						} else {
+							run.Count("spoof_ignored_target_answer_delivered", 1)
+						}
+					default:
+						run.Count("no_answer_observed", 1)
+					}
+					for _, role := range c11Roles {
+						w.cl[role].DrainRaw()
+					}
+				}
+			}
+		}
+	}
+	run.Floor("target_answer_delivered", 2)
+	if run.Counter("watchdog") > 0 {
+		run.Floor("watchdog_free", 1)
+	}
+}
+
